@@ -164,7 +164,16 @@ func cmdCheck(args []string) {
 			missingFuncs = append(missingFuncs, pf.Pkg+"."+pf.Name)
 			continue
 		}
-		r := e.VerifyFunction(fn)
+		r := func() (r *FuncResult) {
+			// an engine failure on one function must not take the check down: the function counts as outside the
+			// supported subset, and its claimed obligations are reported
+			defer func() {
+				if x := recover(); x != nil {
+					r = &FuncResult{Fn: funcDisplayName(fn), Errors: []string{fmt.Sprintf("outside subset: engine panic: %v", x)}}
+				}
+			}()
+			return e.VerifyFunction(fn)
+		}()
 		results = append(results, r)
 		for _, pat := range pf.Match {
 			if re, err := regexp.Compile(pat); err == nil {
@@ -405,6 +414,7 @@ func cmdCheck(args []string) {
 	// verdicts
 	var knownHit []KnownFinding
 	var undecidedNew, retired []string
+	outsideReported := map[string]bool{}
 	discharged, total := 0, 0
 	var perOb []map[string]interface{}
 	var claimedNames []string
@@ -415,6 +425,22 @@ func cmdCheck(args []string) {
 	for _, name := range claimedNames {
 		ob, ok := byName[name]
 		if !ok {
+			if i := strings.Index(name, "#"); i >= 0 && outside[name[:i]] {
+				// the function could not be verified at all (engine failure or construct outside the subset): nothing
+				// claimed for it is established
+				if !outsideReported[name[:i]] {
+					outsideReported[name[:i]] = true
+					var errs []string
+					for _, r := range results {
+						if r.Fn == name[:i] {
+							errs = r.Errors
+						}
+					}
+					o := &Obligation{Name: name, Kind: obKindFromName(name), Fn: name[:i], Status: "unbound", Output: "function left the supported subset: " + strings.Join(errs, "; ")}
+					violations = append(violations, violation{ob: o, reason: "outside-subset"})
+				}
+				continue
+			}
 			kind := obKindFromName(name)
 			if safetyKinds[kind] || kind == "guarded" || kind == "unguarded-write" || kind == "loop-frame" || kind == "lock-reentry" || kind == "unlock-not-held" || kind == "pre" || kind == "inv-entry" || kind == "inv-preserved" || kind == "lock-balance" {
 				// the instruction that could fail is gone, or a helper changed shape
